@@ -1,12 +1,12 @@
 SPECIFICATION Spec
 CONSTANTS
   Writers = {"w1", "w2"}
-  Two = {"w1", "w2"}
+  Two = {}
   Three = {}
-  SOps <- SOpsELE
+  SOps <- SOpsNone
   Cap = 2
-  Split = FALSE
-  Prefill = FALSE
+  Split = TRUE
+  Prefill = TRUE
   Locked = FALSE
   Export = TRUE
 INVARIANTS Emit
